@@ -43,7 +43,7 @@ def _vec(v, prices, tg, T, default=0.0):
         if 'end' in v:
             en = [_ts(e, tg.tz) for e in v['end']]
         else:
-            en = st[1:] + [pd.Timestamp.max.tz_localize(tg.tz) if tg.tz else pd.Timestamp.max]
+            en = st[1:] + [_ts(pd.Timestamp('2200-01-01'), tg.tz)]      # open end
         out = []
         for t in range(T):
             val = default
